@@ -13,12 +13,37 @@ theorem liveCount_append (s : State) (cn : Conn) :
   simp [liveCount, List.countP_append, List.countP_cons]
   cases cn.dead <;> simp
 
-/-- `enter`, second case: `total++` and a fresh connection held by its creator. -/
+/-- `enter`, second case: `total++` reserves a slot inside the critical section. -/
+theorem hinv_reserve {m : Nat} {s : State} (hI : HInv m s) (i : Nat) (x : Caller)
+    (hx : s.callers[i]? = some x) (hpc : x.pc = .start) (hg : s.max = 0 ∨ s.total < s.max) :
+    HInv m (setPc { s with total := s.total + 1 } i x .reserved) := by
+  have hh : ∀ c, holders (setPc { s with total := s.total + 1 } i x .reserved) c = holders s c := by
+    intro c
+    have e := holders_setPc { s with total := s.total + 1 } i x .reserved hx c
+    have e2 : holders { s with total := s.total + 1 } c = holders s c := rfl
+    simp [heldBy, hpc] at e
+    omega
+  have hr := nReserved_setPc { s with total := s.total + 1 } i x .reserved hx
+  have hr2 : nReserved { s with total := s.total + 1 } = nReserved s := rfl
+  simp [hpc] at hr
+  refine ⟨hI.maxc, ?_, ?_, ?_, ?_, ?_⟩
+  · show s.total + 1 = liveCount s + nReserved (setPc { s with total := s.total + 1 } i x .reserved)
+    rw [hr, hr2, hI.tot]; omega
+  · intro hm
+    show s.total + 1 ≤ s.max
+    rcases hg with h | h
+    · exact absurd h hm
+    · omega
+  · intro c; rw [hh c]; exact hI.one c
+  · intro c cn hcn hd; rw [hh c]; exact hI.live c cn hcn hd
+  · intro c hc; rw [hh c]; exact hI.dang c hc
+
+/-- `mk`: the reserved slot becomes a fresh connection held by its creator. -/
 theorem hinv_create {m : Nat} {s : State} (hI : HInv m s) (i : Nat) (x : Caller)
-    (hx : s.callers[i]? = some x) (hpc : x.pc = .start) (hg : s.max = 0 ∨ s.total < s.max)
+    (hx : s.callers[i]? = some x) (hpc : x.pc = .reserved)
     (t : State) (cn : Conn) (hcn : cn.dead = false ∧ cn.orphan = false)
     (htc : t.callers = s.callers) (htf : t.free = s.free) (hti : t.inbox = s.inbox)
-    (htn : t.conns = s.conns ++ [cn]) (htt : t.total = s.total + 1) (htm : t.max = s.max) :
+    (htn : t.conns = s.conns ++ [cn]) (htt : t.total = s.total) (htm : t.max = s.max) :
     HInv m (setPc t i x (.creating s.conns.length)) := by
   have hh : ∀ c, holders (setPc t i x (.creating s.conns.length)) c
       = holders s c + (if s.conns.length = c then 1 else 0) := by
@@ -35,16 +60,16 @@ theorem hinv_create {m : Nat} {s : State} (hI : HInv m s) (i : Nat) (x : Caller)
     simp [heldBy, hpc] at e
     rw [e2] at e
     by_cases hc : s.conns.length = c <;> simp [hc] at e ⊢ <;> omega
+  have hr := nReserved_setPc t i x (.creating s.conns.length) (by rw [htc]; exact hx)
+  have hr2 : nReserved t = nReserved s := by simp only [nReserved, htc]
+  simp [hpc] at hr
   refine ⟨by show t.max = m; rw [htm]; exact hI.maxc, ?_, ?_, ?_, ?_, ?_⟩
-  · show t.total = List.countP (fun x => !x.dead) t.conns
-    rw [htt, htn, liveCount_append, hI.tot]; simp [hcn.1]
+  · show t.total = List.countP (fun x => !x.dead) t.conns + nReserved (setPc t i x (.creating s.conns.length))
+    rw [htt, htn, liveCount_append, hI.tot]; simp [hcn.1]; omega
   · intro hm
     show t.total ≤ t.max
     rw [htt, htm]
-    have hm' : s.max ≠ 0 := by rw [← htm]; exact hm
-    rcases hg with h | h
-    · exact absurd h hm'
-    · omega
+    exact hI.lim (by rw [← htm]; exact hm)
   · intro c
     rw [hh c]
     by_cases hc : s.conns.length = c
@@ -112,8 +137,9 @@ theorem hinv_markDead_core {m : Nat} {s : State} (hI : HInv m s) (d : Nat) (x x'
       omega
   refine ⟨by rw [htm]; exact hI.maxc, ?_, ?_, ?_, ?_, ?_⟩
   · have := hI.tot
+    have hr : nReserved t = nReserved s := by simp only [nReserved, htc]
     unfold liveCount at this ⊢
-    rw [htt, htn]
+    rw [htt, htn, hr]
     omega
   · intro hm
     rw [htm] at hm ⊢
